@@ -176,7 +176,7 @@ def run(ctx):
             and any(i["dur"] == "short" and i["at"] == s["tstart"] for i in s["items"])
             and (set(s["kinds"]) - {i["srv"] for i in s["items"]}) & {"http", "https", "grpc"}]
     mute = [s for s in small if any(i["dur"] == "mute" for i in s["items"])]
-    chosen = (stratified(small, ctx.pick(12, 220), rnd) + stratified(big, ctx.pick(3, 40), rnd) + stratified(idle, ctx.pick(3, 18), rnd)
+    chosen = (stratified(small, ctx.pick(9, 220), rnd) + stratified(big, ctx.pick(2, 40), rnd) + stratified(idle, ctx.pick(3, 18), rnd)
               + stratified(mute, ctx.pick(2, 12), rnd) + stratified(twins, ctx.pick(3, 24), rnd))
     # (d) work that ends just within the wait, on every kind; (e) connections that never get as far as a
     # request (silent, or stuck in the middle of the TLS ClientHello), on every kind -- fewest scenarios
